@@ -12,7 +12,7 @@ func TestProp(t *testing.T) {
 	kit.Run(t, "C09", rule,
 		kit.Clause[meshCase]{Name: "C09/mesh3/history", Quick: 12000, Thorough: 300000, Gen: genMeshCase, Check: checkMeshCase},
 		kit.Clause[meshCase]{Name: "C09/mesh2/history", Quick: 12000, Thorough: 300000, Gen: genMeshCase, Check: checkMeshCase2},
-		kit.Clause[editCase]{Name: "C09/editors/like-fresh", Quick: 400, Thorough: 12000, Gen: genEditCase, Check: checkEditCase},
+		kit.Clause[editCase]{Name: "C09/editors/like-fresh", Quick: 1600, Thorough: 24000, Gen: genEditCase, Check: checkEditCase},
 		kit.Clause[mapCase]{Name: "C09/maps/history", Quick: 12000, Thorough: 400000, Gen: genMapCase, Check: checkMapCase},
 	)
 }
